@@ -49,8 +49,8 @@ MANIFEST_ENTRY = {
             "and sub-spans stay inside it.  BY CORRESPONDENCE/TESTING ONLY: that the hand-written model is the Nelua code "
             "(scraped tuning constants + step-by-step differential runs of one compiled driver for element types integer, "
             "string, record{integer,number}, number against the extracted model and an independent Python oracle, "
-            "precondition-violating and allocation-refusing streams, ASan/UBSan replay); lib/iterators.nelua; writef/format; "
-            "float32 and user-defined record keys",
+            "precondition-violating and allocation-refusing streams, ASan/UBSan replay); iterators.nelua beyond the proved loops; writef/format; "
+            "user-defined record keys",
     "note": "trusted: Coq 8.16.1 kernel; the hand-written model coq/C12/Model.v (tie = scraped MAX_LOAD_FACTOR/GROW_RATE/INIT_CAPACITY, "
             "initial capacities, growth multipliers, hash seed + correspondence, which is testing); extraction with ExtrOcamlBasic; "
             "OCaml/Nelua/Python glue (driver.ml, driver.nelua, checks/C12.py); sizes are exact naturals (no container near 2^50 "
@@ -86,6 +86,9 @@ THEOREM_CLASSES = {
     "C12_hash_coherent_float": "main",
     "C12_hash_coherent_record": "main",
     "C12_hash_coherent_aggregates": "main",
+    "C12_hash_coherent_string_float32": "main",              # clause "equal keys hash alike" for string and float32 keys
+    "C12_iterators_visit_in_order": "main",                  # clause "iteration order or coverage" for the for-in iterators
+    "C12_iterators_references_alias": "corollary",           # mipairs/mpairs/mnext references (beyond the clauses)
     "C12_hash_byte_loop_total": "corollary",                 # the model's fuel/default are dead code
     "C12_hash_coherent_integer_boolean": "corollary",        # == on integers/booleans is Leibniz equality
     "C12_stringbuilder_step_refines_bytes": "main",
@@ -115,8 +118,8 @@ KINDS = {1: "vector", 2: "sequence", 3: "list", 4: "hashmap", 5: "hashmap-weakha
 BASEKIND = {10: 1, 11: 2, 12: 4, 13: 3}
 TYPES = {0: "integer", 1: "string", 2: "record", 3: "number"}
 OPN = {
-    1: {1: "push", 2: "pop", 3: "insert", 4: "remove", 5: "removevalue", 6: "removeif", 7: "resize", 8: "reserve", 9: "clear", 10: "copy", 11: "at", 12: "assign", 13: "destroy", 14: "convert", 15: "unpack", 16: "scoped-close"},
-    3: {1: "pushfront", 2: "pushback", 3: "popfront", 4: "popback", 5: "insertbefore", 6: "erasevalue", 7: "find", 8: "clear", 9: "empty", 10: "erase(nilptr)", 11: "destroy", 12: "scoped-close"},
+    1: {1: "push", 2: "pop", 3: "insert", 4: "remove", 5: "removevalue", 6: "removeif", 7: "resize", 8: "reserve", 9: "clear", 10: "copy", 11: "at", 12: "assign", 13: "destroy", 14: "convert", 15: "unpack", 16: "scoped-close", 17: "mnext-walk"},
+    3: {1: "pushfront", 2: "pushback", 3: "popfront", 4: "popback", 5: "insertbefore", 6: "erasevalue", 7: "find", 8: "clear", 9: "empty", 10: "erase(nilptr)", 11: "destroy", 12: "scoped-close", 13: "mnext-walk"},
     4: {1: "set", 2: "get", 3: "peek", 4: "has", 5: "has_and_get", 6: "remove", 7: "erase", 8: "clear", 9: "reserve", 10: "rehash", 11: "erase-while-iterating", 12: "next(k)", 13: "next()", 14: "probe", 15: "mpairs-update", 16: "next-traversal", 17: "destroy"},
     6: {1: "write", 2: "writebyte", 3: "prepare/commit", 4: "rollback", 5: "resize", 6: "clear", 7: "promote", 8: "commit-over", 9: "prepare", 10: "destroy", 11: "write(integer)", 12: "write(boolean)", 13: "write(integer,bytes,boolean)"},
     7: {1: "at", 2: "sub", 3: "sub-at", 4: "sub-sub"},
@@ -280,6 +283,7 @@ class OVec:
             if not (i >= 1 and j <= len(l) and i <= j): raise Violation("Unpack")
             return ",".join(str(x) for x in l[i - 1:j])
         if op == 16: return "c2"        # a separate to-be-closed container: this one is untouched
+        if op == 17: return "m%d" % len(l)      # a walk through mnext: visits every element once
         raise KeyError(op)
 
     def contents(self):
@@ -329,6 +333,7 @@ class OList:
         if op == 11:
             self.l = []; return "-"
         if op == 12: return "c2"
+        if op == 13: return "m%d" % len(l)
         raise KeyError(op)
 
     def contents(self):
@@ -592,7 +597,8 @@ def gen_history(rng, kind, typ, nsteps, maxsize, big=False):
                     emit(14, rng.choice([0, 1, 2, 3, 5, 8, min(maxsize, target)]), b0, 0 if b0 >= NZ else rng.choice([0, 1, 1, 3]))
                 elif r < 0.98 and kind == 2 and n >= 1:
                     emit(15, rng.choice([0] + ([1, 2] if n >= 3 else [])))
-                elif r < 0.99: emit(16, pick(), pick())
+                elif r < 0.985: emit(16, pick(), pick())
+                elif r < 0.995: emit(17)
                 else: emit(1, pick())
         elif kind == 3:
             if n >= maxsize: grow = False
@@ -608,7 +614,8 @@ def gen_history(rng, kind, typ, nsteps, maxsize, big=False):
                 elif r < 0.92: emit(9)
                 elif r < 0.94: emit(8)
                 elif r < 0.955: emit(11)
-                elif r < 0.97: emit(12, pick(), pick())
+                elif r < 0.96: emit(12, pick(), pick())
+                elif r < 0.975: emit(13)
                 else: emit(2, pick())
         elif kind in (4, 5):
             if n >= maxsize: grow = False
@@ -817,7 +824,25 @@ def gen_hash_cases(rng, n):
         cases.append((9, s64(b), s64(b2), 0))
         cases.append((9, s64(b), s64(b2 ^ (1 << 63)), 0))
     cases.append((14, 0, 0, 0))
+    # float32 bit patterns: hash and ==, select, string ==
+    b32 = [0, 0x80000000, 0x3f800000, 0xbf800000, 1, 0x80000001, 0x007fffff, 0x00800000, 0x7f7fffff, 0xff7fffff, 0x7f800000, 0xff800000,
+           0x7fc00000, 0x7f800001, 0x3dcccccd, 0x4b800000] + [rng.getrandbits(32) for _ in range(max(20, n // 4))]
+    for b in b32:
+        cases.append((15, b, 0, 0))
+        cases.append((16, b, b ^ 0x80000000, 0))
+        cases.append((16, b, b, 0))
+    for _ in range(6):
+        a = s64(rng.getrandbits(64)); b = rng.randrange(-99, 99)
+        cases += [(17, a, b, 0), (18, a, b, 0), (19, a, b, 0)]
+    for _ in range(max(6, n // 20)):
+        cases.append((20, rng.randrange(0, 500), rng.choice([0, 1, 2, 31, 32, 33, 100, 1000]), 0))
     return cases
+
+
+def py_feq32(a, b):
+    fa = struct.unpack("<f", struct.pack("<I", a & 0xffffffff))[0]
+    fb = struct.unpack("<f", struct.pack("<I", b & 0xffffffff))[0]
+    return fa == fb
 
 
 def py_feq(a, b):
@@ -1188,20 +1213,36 @@ def correspond(ctx):
     pos += 1
     hash_vals = {}
     n_hash = 0
+    sel_reported = False
     for (op, a, b, c) in ([] if pos_dead else hash_cases):
         iline = il[pos] if pos < len(il) else "<none>"
         mline = ml[pos]
         pos += 1
         evaluations += 1
         n_hash += 1
-        bump(stats["ops"], "hash.%s" % {1: "integer", 2: "float", 3: "string", 4: "record", 5: "boolean", 6: "float==", 7: "record==", 8: "array-of-integer", 9: "array-of-float", 10: "typed-pointer", 11: "pointer", 12: "span-of-integer", 13: "union", 14: "empty-array"}[op])
+        bump(stats["ops"], "hash.%s" % {1: "integer", 2: "float", 3: "string", 4: "record", 5: "boolean", 6: "float==", 7: "record==", 8: "array-of-integer", 9: "array-of-float", 10: "typed-pointer", 11: "pointer", 12: "span-of-integer", 13: "union", 14: "empty-array", 15: "float32", 16: "float32==", 17: "select#", 18: "select(2)", 19: "select(-1)", 20: "string=="}[op])
         if op == 6:
             if iline != ("1" if py_feq(a, b) else "0"):
                 n_oracle += 1
                 ctx.violation("hash:feq %d %d" % (a, b), "oracle", "float == on bit patterns %x, %x gives %s" % (a % 2**64, b % 2**64, iline))
-        if op in (2, 4, 9):
+        if op == 16:
+            if iline != ("1" if py_feq32(a, b) else "0"):
+                n_oracle += 1
+                ctx.violation("hash:feq32 %d %d" % (a, b), "oracle", "float32 == on bit patterns %x, %x gives %s" % (a, b, iline))
+        if op == 18 and iline == "%d nil" % b:
+            # one class of input, one key: `local x, y = select(2, a, b, c)` leaves y nil
+            n_oracle += 1
+            if not sel_reported:
+                sel_reported = True
+                ctx.violation("iterators:select(2, a, b, c) returns only b", "oracle",
+                              "select(i, ...) returns only its i-th argument instead of `all arguments after argument number index` (iterators.nelua's own documentation, and Lua): `local x, y = select(2, %d, %d, %d)` gives x = %d and y = nil" % (a, b, a ^ b, b),
+                              detail={"program": "require 'iterators'\nlocal x, y = select(2, %d, %d, %d)\nprint(x, y)   -- prints '%d nil', Lua prints '%d %d'" % (a, b, a ^ b, b, b, a ^ b)})
+        elif op == 17 and iline != "3" or op == 18 and iline != "%d %d" % (b, a ^ b) or op == 19 and iline != "%d" % (a ^ b) or op == 20 and iline != "1 1 0":
+            n_oracle += 1
+            ctx.violation("iterators:select/string %d %d %d" % (op, a, b), "oracle", "select / string == case %d on (%d, %d) printed %s" % (op, a, b, iline))
+        if op in (2, 4, 9, 15):
             hash_vals[(op, a, b)] = iline
-        if iline != mline:
+        if iline != mline and not (op == 18 and iline == "%d nil" % b):
             n_mismatch += 1
             if n_mismatch <= 3:
                 ctx.violation("model-mismatch:hash.%d" % op, "correspondence", "hash model differs from hash.hash on case %d %d %d: model %s, implementation %s" % (op, a, b, mline, iline),
@@ -1213,6 +1254,11 @@ def correspond(ctx):
             if other in hash_vals and py_feq(a, other[1]) and hash_vals[other] != hv:
                 n_oracle += 1
                 ctx.violation("hash:float %d" % a, "oracle", "floats with bit patterns %x and %x are == but hash to %s and %s" % (a % 2**64, other[1] % 2**64, hv, hash_vals[other]))
+        if op == 15:
+            other = (15, a ^ 0x80000000, 0)
+            if other in hash_vals and py_feq32(a, other[1]) and hash_vals[other] != hv:
+                n_oracle += 1
+                ctx.violation("hash:float32 %d" % a, "oracle", "float32 values with bit patterns %x and %x are == but hash to %s and %s" % (a, other[1], hv, hash_vals[other]))
         if op == 9:
             other = (9, a, s64((b % 2**64) ^ (1 << 63)))
             if other in hash_vals and py_feq(b, other[2]) and hash_vals[other] != hv:
@@ -1400,10 +1446,10 @@ def correspond(ctx):
 
 UNPROVED = [
     "model = code is not a theorem: lib/{vector,sequence,list,hashmap,span,stringbuilder,hash}.nelua are mirrored by hand in coq/C12/Model.v (one Gallina function per source function); the tie is the scraped constants (Gen.v) plus the step-by-step differential runs of the compiled library against the extracted model and the Python oracle, also under ASan/UBSan",
-    "lib/iterators.nelua (ipairs/mipairs/pairs/mpairs/next/mnext over contiguous containers, list.__next/__mnext, select) is not modelled: its index stepping is only exercised by the driver (ipairs over vector and span, mipairs over a sub-span, pairs over sequence, list and hashmap, mpairs and next over hashmap); mnext and select are not exercised at all",
-    "hashmap: the model runs with a hash on value tokens while the implementation hashes the real values; this is covered by C12_hashmap_is_flat_map / C12_hashmap_hash_independent_exact (every hash that respects == gives identical results, order, capacity and bucket count) TOGETHER WITH the coherence of the real hashes, which is proved only for integer, boolean, float64 (+-0, NaN), record{integer,number}, arrays/spans/pointers/unions as functions of the compared bytes; strings are compared with == on bytes and hashed by the byte loop (coherent by congruence, not stated); float32 keys and other record shapes are not covered",
+    "lib/iterators.nelua is modelled as stateless iterator triples driven by a generic for loop (Model.v: for_in/for_do/ip_next, vec_ipairs, span_ipairs, seq_pairs, dl_pairs, hm_for_pairs, vec_mipairs_map, dl_mpairs_map, hm_for_mpairs); PROVED: ipairs over vector and span, pairs over list and hashmap visit exactly the abstract contents in order, the vector reference of mipairs aliases the element and the whole `$x = f($x)` loop is the element-wise update, the list/hashmap references of mnext are the node whose value next yields. NOT proved (modelled only): pairs over sequence (seq_pairs), the whole mpairs update loops of list and hashmap (dl_mpairs_map, hm_for_mpairs = hm_mapvals); `for` bodies that change the container's shape are outside the model. Exercised by the driver: ipairs/mipairs/pairs/mpairs, mnext walks over vector, sequence and list (reference identity checked), next over hashmap, select; mnext over hashmap is not exercised. OPEN FINDING: select(i, ...) returns one value instead of all arguments after i (known_findings/C12.json)",
+    "hashmap: the model runs with a hash on value tokens while the implementation hashes the real values; this is covered by C12_hashmap_is_flat_map / C12_hashmap_hash_independent_exact (every hash that respects == gives identical results, order, capacity and bucket count) TOGETHER WITH the coherence of the real hashes, which is proved only for integer, boolean, float64 (+-0, NaN), record{integer,number}, arrays/spans/pointers/unions as functions of the compared bytes; strings (== on the bytes, hash.long over the bytes) and float32 are covered by C12_hash_coherent_string_float32; other record shapes are not covered",
     "hashmap: the distinguished Overflow outcome (roundpow2 wrapped in usize; the implementation would continue with a zero-sized table) is excluded by theorem only below 2^50 bindings/requested counts (C12_hashmap_no_overflow_below_2p50); at or above that the model says Overflow and nothing is claimed about the code",
-    "hashmap next(m,k)/__next is not an operation of the step relation (hop): C12_hashmap_next_follows_iteration_order covers it separately and the flat-map theorem does not mention it",
+    "hashmap next(m,k)/__next is still not an operation of the step relation hop (requested in the last round, not done): C12_hashmap_next_follows_iteration_order covers it separately and the flat-map theorem does not mention it",
     "allocation failure: theorems are about the model with an allocation oracle (refused request = panic before any change); that the library's x-allocators panic is checked by the driver with a refusing allocator, not proved; the gc/general allocators themselves are C11's subject; counts whose byte size overflows (Allocator span operations, /repo 942989e) are outside the model (sizes are exact naturals)",
     "stringbuilder: histories are covered under the static protocol condition sb_op_ok (the client writes at most the n bytes it asked prepare for), a sufficient condition for the state-dependent one of the step theorem (at most the span prepare returned); write of integer/boolean arguments is modelled as write of the rendered bytes (the rendering, strconv.int2str, is C14's theorem in another sub-project: here driver and oracle render and the correspondence compares); float arguments (num2str), writef/formatarg (string.format) and __tostring are not modelled",
     "list __convert (needs a fixed-size array literal) is not exercised; vector/sequence __convert is exercised through conversion from a span; __close is exercised at harness level only (a scoped to-be-closed container, also under the sanitizer build), in the model it is destroy",
